@@ -317,7 +317,10 @@ func genC07(t *rapid.T) any {
 		c.SubAlias = "sb"
 		if c.Form == "sel-sub" {
 			c.Sub = "SELECT " + sc.p + " FROM " + sc.items
-			if rapid.IntRange(0, 3).Draw(t, "subagg") == 0 {
+			if rapid.IntRange(0, 3).Draw(t, "subdistinct") == 0 {
+				// DISTINCT inside the sub query: applies on every row the sub query is evaluated for
+				c.Sub = "SELECT DISTINCT " + sc.p + " FROM " + sc.items
+			} else if rapid.IntRange(0, 3).Draw(t, "subagg") == 0 {
 				// an aggregate-only sub query: one row per outer row, also over an empty nested array
 				c.Sub = fmt.Sprintf("SELECT COUNT(*) AS n, %s(%s) AS sv FROM %s", rapid.SampledFrom([]string{"SUM", "MAX", "MIN"}).Draw(t, "subaggfn"), sc.p, sc.items)
 			}
